@@ -41,6 +41,7 @@ class Interp:
         if s not in self.str_lits:
             c = z3.Const('str:' + s, Str)
             self.str_lits[s] = c
+            self.run.str_consts.append(c)
         return self.str_lits[s]
 
     def str_axioms(self):
@@ -171,6 +172,19 @@ class Interp:
             for x in v:
                 self.assume_domain(x)
         return v
+
+    def def_array(self, vars_, body):
+        """array given by comprehension: a fresh array constant with its defining axiom (kept out of lambda terms so
+        that the SMT-LIB text stays within what cvc5 reads)"""
+        sort = body.sort()
+        for v in reversed(vars_):
+            sort = z3.ArraySort(v.sort(), sort)
+        a = self.run.fresh('def', sort)
+        sel = a
+        for v in vars_:
+            sel = sel[v]
+        self.run.assume(z3.ForAll(list(vars_), sel == body), silent=True)
+        return a
 
     # ================================================================ truthiness / equality
     def truthy(self, v):
@@ -422,7 +436,7 @@ class Interp:
         if isinstance(ty, TSet) and isinstance(val, SymSet):
             r = self.alloc('set')
             name, a = self.set_arr(SetV(r, ty.t))
-            self.heap.set(name, z3.Store(a, r, val.arr))
+            self.heap.set(name, z3.Store(a, r, as_array(val.arr)))
             return SetV(r, ty.t)
         if isinstance(ty, TDict) and isinstance(val, ConstDict):
             d = self.new_dict(ty.k, ty.v)
@@ -526,6 +540,7 @@ class Interp:
     def card(self, chi):
         """cardinality of a finite set given by characteristic array: uninterpreted, with the sound facts needed
         for comparisons against 0, 1 and 2 (the only ones the code under proof makes)."""
+        chi = as_array(chi)
         dom = chi.sort().domain()
         f = z3.Function(f'card_{dom}', chi.sort(), I)
         c = f(chi)
@@ -729,6 +744,8 @@ class InterpExpr:
     def module_name(self, modname, name):
         mod = self.ct.modules.get(modname)
         if mod is not None:
+            if getattr(mod, 'external', False) and f'{modname}.{name}' in self.reg.ext_contracts:
+                return Builtin(f'ext:{modname}.{name}')
             if name in mod.functions:
                 return FuncV(mod.functions[name])
             if name in mod.classes:
@@ -758,7 +775,7 @@ class InterpExpr:
             for mn in ('supervisor.states',):
                 if name in self.ct.modules[mn].assigns or name in self.ct.modules[mn].classes:
                     return self.module_name(mn, name)
-        if name in self.BUILTIN_NAMES or name in self.SPEC_NAMES:
+        if name in self.BUILTIN_NAMES or name in self.SPEC_NAMES or hasattr(self, 'bi_' + name):
             return Builtin(name)
         if name in self.EXC_NAMES:
             return ClassV(name)
@@ -831,6 +848,11 @@ class InterpExpr:
                 return base.args[0] if attr == 'code' and base.args else (base.args[1] if len(base.args) > 1 else None)
             if attr == 'args':
                 return tuple(base.args)
+        if isinstance(base, Builtin) and base.name.startswith('ext:'):
+            key = f'{base.name[4:]}.{attr}'
+            if key in self.reg.externals:
+                return self.reg.externals[key]
+            return Builtin('ext:' + key)
         if isinstance(base, (ListV, SetV, DictV, RecV, ConstSeq, ConstDict, SymSet, ValuesView)) or isinstance(base, (str, tuple)) \
                 or (isinstance(base, SV) and base.ty in (STR, INT, REAL)):
             return Builtin('m:' + attr, base)
@@ -1316,14 +1338,26 @@ class InterpExpr:
     def set_binop(self, op, a, b):
         ety = a.ety if a.ety != ANY else b.ety
         ca, cb = self.set_chi(a), self.set_chi(b)
-        x = z3.Const('x!sb', sort_of(ety))
+        x = self.run.fresh('x!sb', sort_of(ety))
         if isinstance(op, ast.BitOr):
             body = z3.Or(ca[x], cb[x])
         elif isinstance(op, ast.BitAnd):
             body = z3.And(ca[x], cb[x])
         else:
             body = z3.And(ca[x], z3.Not(cb[x]))
-        return SymSet(z3.Lambda([x], body), ety)
+        return SymSet(FnChi(self, x, body), ety)
+
+    def seq_concat(self, a, b, line):
+        ia, ib = self.iter_const(a), self.iter_const(b)
+        if ia is not None and ib is not None:
+            if isinstance(a, tuple) and isinstance(b, tuple):
+                return tuple(ia + ib)
+            return ConstSeq(ia + ib, 'list')
+        from . import seqs
+        la = a if isinstance(a, ListV) else self.new_list(ia, b.ety)
+        out = seqs.list_of(self, la, line)
+        self.call_builtin_method(out, 'extend', [b], {}, line)
+        return out
 
     def opaque_str(self):
         return SV(self.run.fresh('s', Str), STR)
@@ -1422,7 +1456,10 @@ class InterpComp:
             return [i], z3.And(0 <= i, i < self.list_len(coll)), self.list_get_nodom(coll, i)
         if isinstance(coll, (SetV, SymSet)):
             x = self.run.fresh('gx', sort_of(coll.ety))
-            return [x], self.set_chi(coll)[x], self.wrap(x, coll.ety, getattr(coll, 'heap', None))
+            guard = self.set_chi(coll)[x]
+            if isinstance(coll.ety, TEnum):   # shape validity: members of a set of enum values are enum values
+                guard = z3.And(guard, self.ts.enum_domain(x, coll.ety.name))
+            return [x], guard, self.wrap(x, coll.ety, getattr(coll, 'heap', None))
         if isinstance(coll, DictV):
             coll = ValuesView(coll, 'keys')
         if isinstance(coll, ValuesView):
@@ -1532,8 +1569,8 @@ class InterpComp:
         _, vars_, guard, elt, coll = q
         ety = self.value_type(elt)
         et = self.coerce_term(elt, ety)
-        y = z3.Const('y!sc', sort_of(ety))
-        return SymSet(z3.Lambda([y], z3.Exists(vars_, z3.And(guard, et == y))), ety)
+        y = self.run.fresh('y!sc', sort_of(ety))
+        return SymSet(FnChi(self, y, z3.Exists(vars_, z3.And(guard, et == y))), ety)
 
     def ev_DictComp(self, n, fr):
         q = self.quantified_gen(GenV(ast.GeneratorExp(elt=ast.Tuple(elts=[n.key, n.value], ctx=ast.Load()),
